@@ -31,7 +31,7 @@ CHECKS = {
         "technique": "grammar-based exhaustive enumeration of argument lists x layouts on the real tag machinery vs reference evaluator + layout metamorphism",
         "text": "All argument lists from the documented grammar up to a node/arity bound (227 leaves x 33 frames; values <= 4/5 nodes to depth 3; all 1-2/3-argument lists; 523 documented-invalid forms) are printed in 10-36 "
                 "whitespace/quote/trailing-comma/end-tag layouts and executed through {% component %} and a BaseNode tag against two contexts; received (args, kwargs, flags) are compared type-exactly with a reference evaluator "
-                "(stock FilterExpression for leaves, Python semantics for containers, spreads and aggregation) and across layouts; invalid forms must raise TemplateSyntaxError. Part F: keyword values spelled like a flag of the tag (`k=only`, `data=default`) in 7 value forms x flag absent / before / after x bound / unbound, on the component, node and slot seams.",
+                "(stock FilterExpression for leaves, Python semantics for containers, spreads and aggregation) and across layouts; invalid forms must raise TemplateSyntaxError. Part F: keyword values spelled like a flag of the tag (`k=only`, `data=default`) in 7 value forms x flag absent / before / after x bound / unbound, on the component, node and slot seams. Part G: 11 list / dict literal forms x {same Template twice, loop}: a receiver that mutates its arguments must not be seen by the next render of the node.",
         "note": "bounded by value alphabet, size and depth; leaves judged by stock Django default filters; corners the statement leaves open are skipped or accepted under either reading (duplicate keywords, escape sequences, filters on nested-template strings, whitespace around `=`); receivers are *args/**kwargs (binding is C11)",
     },
     "C03": {
@@ -79,7 +79,7 @@ CHECKS = {
         "technique": "stateless model checking of real threads: exhaustive schedules up to a preemption bound (CHESS-style iterative context bounding)",
         "text": "Seven 2-thread scenarios (provide/inject incl. a failing render, template compilation through a full LRU cache, first media resolution, lazily created singletons, "
                 "nested vs failing nested renders, one Template object shared by a component inside an extends block and a stock include) are executed on the real library under a baton scheduler for every schedule with <= k preemptions at every line touching process-global state "
-                "(quick k=2 on the provide-error and LRU scenarios, k=1 elsewhere; thorough k=3 / k=2); each thread's result must equal its solo result, no deadlock, no residue, LRU list/dict invariant. Further scenarios: one Template object shared by a nested component and a stock include (S9), one Component instance / as_view in two threads (S10), one compiled template rendered with two contexts (S11), and opcode-granular variants of the provide and LRU scenarios (every bytecode of perfutil/provide.py, util/cache.py, template.py, cache.py a scheduling point).",
+                "(quick k=2 on the provide-error and LRU scenarios, k=1 elsewhere; thorough k=3 / k=2); each thread's result must equal its solo result, no deadlock, no residue, LRU list/dict invariant. Further scenarios: one Template object shared by a nested component and a stock include (S9), one Component instance / as_view in two threads (S10), one compiled template rendered with two contexts (S11), and opcode-granular variants of the provide and LRU scenarios (every bytecode of perfutil/provide.py, util/cache.py, template.py, cache.py a scheduling point). S12: render_dependencies() on a placeholder-free and a placeholder-bearing document in two threads.",
         "note": "CPython+GIL, preemption between source lines of the scheduling set only (under-approximation: every explored schedule is realisable); 2 threads; library locks become cooperative locks via a wrapper installed before import",
     },
     "C08": {
@@ -87,7 +87,7 @@ CHECKS = {
         "design_ref": "DESIGN.md 2.4, 3/C08",
         "technique": "bounded-exhaustive token documents on the real render_dependencies/middleware vs token-level reference implementation",
         "text": "Every document of <= 4 (thorough <= 5) tokens over a 24-token hostile alphabet (text incl. non-ASCII, look-alikes, </head>/</body> variants, real placeholders with 0-2 id attributes, real marker comments) x str/bytes/SafeString/latin-1 x document/fragment "
-                "is run through the real render_dependencies and compared byte-for-byte and type-exactly with a reference of the documented insertion rule; the middleware is run over all <= 2-token bodies x content types (incl. bodies that are not valid in the declared charset) x streaming x sync/async; the real components' inlined scripts carry backslash sequences.",
+                "is run through the real render_dependencies and compared byte-for-byte and type-exactly with a reference of the documented insertion rule; the middleware is run over all <= 2-token bodies x content types (incl. bodies that are not valid in the declared charset) x streaming x sync/async; the real components' inlined scripts carry backslash sequences. and the text of `</head>` / `</body>` (positions are the document's, not those of what was just inserted).",
         "note": "tag strings are taken from the implementation (their content is C04); </HEAD> / </BODY> accepted under either case reading; tag strings containing end-tag or placeholder look-alikes are not generated",
     },
     "C09": {
@@ -114,7 +114,7 @@ CHECKS = {
         "technique": "bounded-exhaustive signature x call-sequence enumeration against Python's own call binding (differential twin)",
         "text": "Every render() signature up to 5 parameters (positional-only / positional-or-keyword / *args / keyword-only / **kwargs, with and without defaults; 1085 signatures) is crossed with every "
                 "argument sequence up to length 4-5 over matching, duplicate, unknown, non-identifier, keyword and spread-produced keys. Each pair runs on the real tag machinery on both validation paths "
-                "(and through @template_tag + Template, and with the built-in tags' signatures); acceptance and complete bindings are compared with Python executing the literal equivalent call on the same function. Part E: `...var` spreads whose operand is a variable of 6 mapping and 5 iterable types, against Python's f(**m) / f(*it).",
+                "(and through @template_tag + Template, and with the built-in tags' signatures); acceptance and complete bindings are compared with Python executing the literal equivalent call on the same function. Part E: `...var` spreads whose operand is a variable of 6 mapping and 5 iterable types, against Python's f(**m) / f(*it). Signatures with <= 2 parameters are also run on a node class that inherits render() from a plain mixin.",
         "note": "integer literal values; list spread after a plain keyword accepted under either reading; **kwargs order and messages not compared; fallback path reached via a callable without __code__; thorough covers L=5 only for signatures <= 3 params",
     },
     "C12": {
@@ -176,7 +176,7 @@ CHECKS = {
         "technique": "explicit-state BFS to fixpoint over real LRUCache / cached_template histories vs OrderedDict model",
         "text": "All get/has/set/clear histories of every length over 4 keys x 2 values are covered by a BFS to fixpoint on the real LRUCache "
                 "(sizes None,0,1,2,3) with an OrderedDict reference model and a list/dict structural invariant checked in every state; "
-                "cached_template() is searched the same way for cache sizes 0,1,2,128 and component renders for all sequences <= 4. Requests whose output depends on the origin (relative include) are part of both searches; the oracle compares cached objects, never the implementation's key tuples.",
+                "cached_template() is searched the same way for cache sizes 0,1,2,128 and component renders for all sequences <= 4. Requests whose output depends on the origin (relative include) are part of both searches; the oracle compares cached objects, never the implementation's key tuples. Part D: every history <= 5 over {render a host component, render a cached tag template, re-register the component name with another class}: output = a template compiled afresh.",
         "note": "single-threaded; alphabet of 4 keys/2 values (code is key/value agnostic); CPython 3.12 / Django 5.1 as installed",
     },
 }
